@@ -83,7 +83,7 @@ func atomicCfgs(c *core.Ctx) []atomicCfg {
 			{"Add", 1, 0}, {"Add", ones, 0}, {"Add", maxS, 0}, {"Add", minS, 0}, {"Add", r1, 0},
 			{"CAS", 0, ones}, {"CAS", minS, r2}}
 		if c.Thorough() {
-			o = append(o, aop{"Swap", r2, 0}, aop{"CAS", ones, 0}, aop{"Add", (1 << 16) & mask, 0})
+			o = append(o, aop{"CAS", ones, 0}, aop{"Add", (1 << 16) & mask, 0})
 		}
 		out = append(out, atomicCfg{Kind: k, MaxLen: c.Pick(3, 4), Ops: o})
 		if c.Thorough() {
@@ -91,9 +91,9 @@ func atomicCfgs(c *core.Ctx) []atomicCfg {
 			out = append(out, atomicCfg{Kind: k, MaxLen: 5, Ops: []aop{{"Load", 0, 0}, {"Add", 1, 0}, {"Add", ones, 0}, {"Add", minS, 0}, {"Add", maxS, 0}, {"Swap", maxS, 0}, {"CAS", 0, ones}}})
 		}
 	}
-	out = append(out, atomicCfg{Kind: "bool", MaxLen: c.Pick(4, 5), Ops: []aop{{"Load", 0, 0}, {"Store", 1, 0}, {"Store", 0, 0}, {"Swap", 1, 0}, {"Swap", 0, 0},
+	out = append(out, atomicCfg{Kind: "bool", MaxLen: c.Pick(3, 4), Ops: []aop{{"Load", 0, 0}, {"Store", 1, 0}, {"Store", 0, 0}, {"Swap", 1, 0}, {"Swap", 0, 0},
 		{"CAS", 0, 1}, {"CAS", 1, 0}, {"CAS", 1, 1}}})
-	out = append(out, atomicCfg{Kind: "ptr", MaxLen: c.Pick(4, 5), Ops: []aop{{"Load", 0, 0}, {"Store", 1, 0}, {"Store", 0, 0}, {"Swap", 2, 0},
+	out = append(out, atomicCfg{Kind: "ptr", MaxLen: c.Pick(3, 4), Ops: []aop{{"Load", 0, 0}, {"Store", 1, 0}, {"Store", 0, 0}, {"Swap", 2, 0},
 		{"CAS", 0, 1}, {"CAS", 1, 2}, {"CAS", 2, 0}, {"CAS", 1, 1}}})
 	var vops []aop
 	vops = append(vops, aop{"Load", 0, 0})
@@ -102,6 +102,9 @@ func atomicCfgs(c *core.Ctx) []atomicCfg {
 	}
 	for _, o := range []uint64{0, 1, 3} {
 		for n := uint64(0); n <= 3; n++ {
+			if !c.Thorough() && (n == 2 && o != 1 || n == 0 && o == 3) {
+				continue // quick tier: 8 of the 12 (old, new) combinations
+			}
 			vops = append(vops, aop{"CAS", o, n})
 		}
 	}
@@ -591,14 +594,14 @@ func runAtomic(c *core.Ctx, pool *gjs.Pool) bool {
 		return false
 	}
 	nat, err := parseAtomicLines(b.Native.Lines, len(cfgs))
-	if err != nil || b.Native.End != "exit" {
+	if err != nil || !endedOK(b.Native) {
 		c.Infra(fmt.Errorf("native atomic executor: end=%s %s %v", b.Native.End, b.Native.Msg, err))
 		return false
 	}
 	c.Add("programs", 2)
 	col := newCollector()
 	js, err := parseAtomicLines(b.JS.Lines, len(cfgs))
-	if err != nil || b.JS.End != "exit" {
+	if err != nil || !endedOK(b.JS) {
 		col.fail(&failure{group: "atomic-js-abort", keys: []string{"atomic_executor_aborted"},
 			summary: fmt.Sprintf("the sync/atomic history executor compiled by GopherJS did not run to completion: end=%s msg=%s err=%v (native printed %d lines)", b.JS.End, b.JS.Msg, err, len(b.Native.Lines)),
 			files:   prog.ReplayFiles("prog")})
